@@ -11,7 +11,7 @@ ANCHORS = [("qartod.py", "spike_test"), ("qartod.py", "rate_of_change_test"), ("
            ("axds.py", "valid_range_test"), ("utils.py", "mapdates")]
 RULE = ("dyadic series of 1..10 (..16 thorough) points with missing values on regular / irregular whole-second axes; "
         "transformed twins: value offsets {1,-3,1/2,1024,2^20,-2^30}, negation, time shifts {1 s, 1 d, 365 d, -3650 d, "
-        "1 w + 1 s} (absolute climatology / valid-range spans shifted with the data), joint data+span shifts, series "
+        "1 w + 1 s; and sub-second shifts of sub-second instants} (absolute climatology / valid-range spans shifted with the data), joint data+span shifts, series "
         "reversal (spike); and every single-point perturbation (value->value, value->missing, missing->value) at "
         "every position with the flags outside the statement's neighbourhood required unchanged.  Relations are "
         "checked on recorded pairs of real calls.  distinct = (test mode, relation, parameter, flag set); trivial = "
@@ -101,6 +101,28 @@ def run(ctx) -> None:
             relate(ctx, "rate_of_change", "offset", c, "qartod.rate_of_change_test", k0, {**k0, "inp": X(off(x, c))}, ident, pc)
             relate(ctx, "rate_of_change", "negate", "", "qartod.rate_of_change_test", k0, {**k0, "inp": X(neg(x))}, ident, pc)
             relate(ctx, "rate_of_change", "time-shift", dt_, "qartod.rate_of_change_test", k0, {**k0, "tinp": TT(ts)}, ident, pc)
+        # ---- sub-second instants and sub-second shifts (elapsed whole seconds are shift-invariant only if the
+        #      difference is taken before truncation)
+        if n >= 2 and rng.random() < 0.5:
+            tf, cur = [], float(gen.T0)
+            for _k in range(n):
+                tf.append(cur)
+                cur += rng.choice([1.0, 1.5, 2.5, 3.0])
+            dsub = rng.choice([0.5, 0.25, 86400.5, -0.75])
+            tfs = [v + dsub for v in tf]
+            k0 = {"inp": X(x), "tinp": gen.ftimes(tf), "threshold": rng.choice([0.1, 0.4, 1.0])}
+            relate(ctx, "rate_of_change", "time-shift-subsecond", dsub, "qartod.rate_of_change_test", k0,
+                   {**k0, "tinp": gen.ftimes(tfs)}, ident, {"x": x, "t": tf, "threshold": k0["threshold"]})
+            lon_ = [10.0 + 0.25 * rng.randrange(0, 12) for _ in range(n)]
+            lat_ = [50.0 + 0.125 * rng.randrange(0, 12) for _ in range(n)]
+            k1 = {"lon": X(lon_), "lat": X(lat_), "tinp": gen.ftimes(tf), "suspect_threshold": rng.choice([2000, 9000]),
+                  "fail_threshold": rng.choice([15000, 40000])}
+            relate(ctx, "speed", "time-shift-subsecond", dsub, "argo.speed_test", k1, {**k1, "tinp": gen.ftimes(tfs)}, ident,
+                   {"lon": lon_, "lat": lat_, "t": tf})
+            k2 = {"inp": X(x), "tinp": gen.ftimes(tf), "suspect_threshold": 1.1, "fail_threshold": 0.3, "check_type": "range",
+                  "test_period": rng.choice([3, 4]), "min_obs": 1}
+            relate(ctx, "attenuated-range-window", "time-shift-subsecond", dsub, "qartod.attenuated_signal_test", k2,
+                   {**k2, "tinp": gen.ftimes(tfs)}, ident, {"x": x, "t": tf})
         # ---- flat line (regular axes)
         tr = gen.regular(n, D)
         p = {"suspect_threshold": rng.choice([0, D, 2 * D, 3 * D]), "fail_threshold": rng.choice([D, 3 * D, 4 * D, (n + 1) * D]),
